@@ -242,8 +242,10 @@ def spend_single(kind, seed, **shape):
     sign_p2wpkh / sign_p2sh_p2wpkh)"""
     priv = det_key(seed, "owner")
     foreign = det_key(seed, "foreign")
+    if shape.pop("uncompressed", False):
+        priv = PrivateKey(priv.secret, network="signet", compressed=False)
     if kind == "p2pkh":
-        spk, redeem = priv.point.p2pkh_script(), None
+        spk, redeem = priv.point.p2pkh_script(compressed=priv.compressed), None
     elif kind == "p2wpkh":
         spk, redeem = priv.point.p2wpkh_script(), None
     else:
